@@ -155,3 +155,21 @@ pub fn parse_packet(toks: &[&str]) -> Option<Packet> {
         _ => None,
     }
 }
+
+/// per-process scratch directory (inside the working directory the check gave us)
+pub fn scratch() -> std::path::PathBuf {
+    std::env::current_dir().unwrap().join(format!("scratch-{}", std::process::id()))
+}
+
+pub fn gen_bytes(len: usize, seed: usize) -> Vec<u8> {
+    (0..len).map(|i| ((i * 31 + i / 251 + seed) % 256) as u8).collect()
+}
+
+pub fn parse_content(s: &str) -> Option<Vec<u8>> {
+    let parts: Vec<&str> = s.split(':').collect();
+    match parts.as_slice() {
+        ["gen", l, sd] => Some(gen_bytes(l.parse().ok()?, sd.parse().ok()?)),
+        [h] => unhex(h),
+        _ => None,
+    }
+}
